@@ -29,7 +29,17 @@ type Cache struct {
 func New(inner sop.L2Cache, typ sop.L2CacheType) *Cache { return &Cache{inner: inner, typ: typ} }
 
 func (c *Cache) SetInner(i sop.L2Cache) { c.mu.Lock(); c.inner = i; c.Calls = 0; c.mu.Unlock() }
-func (c *Cache) Inner() sop.L2Cache    { c.mu.Lock(); defer c.mu.Unlock(); return c.inner }
+func (c *Cache) Inner() sop.L2Cache {
+	if NoSync {
+		return c.innerNoSync()
+	}
+	c.mu.Lock()
+	defer c.mu.Unlock()
+	return c.inner
+}
+
+//go:norace
+func (c *Cache) innerNoSync() sop.L2Cache { return c.inner }
 
 func lkeys(lk []*sop.LockKey) []string {
 	r := make([]string, len(lk))
@@ -39,8 +49,26 @@ func lkeys(lk []*sop.LockKey) []string {
 	return r
 }
 
+// NoSync (race-detection builds): the decorators take no lock and touch their own fields only from
+// //go:norace code, so that they add no happens-before edge between the scheduled threads.
+var NoSync bool
+
+//go:norace
+func (c *Cache) ptNoSync(method string, keys []string) (sop.L2Cache, error) {
+	c.Calls++
+	if c.Fault != nil {
+		if err := c.Fault(method, keys); err != nil {
+			return c.inner, err
+		}
+	}
+	return c.inner, nil
+}
+
 func (c *Cache) pt(method string, keys []string) (sop.L2Cache, error) {
 	vhook.Point("l2", method+" "+strings.Join(keys, ","))
+	if NoSync {
+		return c.ptNoSync(method, keys)
+	}
 	c.mu.Lock()
 	c.Calls++
 	f := c.Fault
@@ -61,8 +89,8 @@ var ErrInjected = fmt.Errorf("verif: injected L2 cache failure")
 
 func (c *Cache) GetType() sop.L2CacheType { return c.typ }
 
-func (c *Cache) FormatLockKey(k string) string                 { return c.Inner().FormatLockKey(k) }
-func (c *Cache) CreateLockKeys(keys []string) []*sop.LockKey   { return c.Inner().CreateLockKeys(keys) }
+func (c *Cache) FormatLockKey(k string) string               { return c.Inner().FormatLockKey(k) }
+func (c *Cache) CreateLockKeys(keys []string) []*sop.LockKey { return c.Inner().CreateLockKeys(keys) }
 func (c *Cache) CreateLockKeysForIDs(keys []sop.Tuple[string, sop.UUID]) []*sop.LockKey {
 	return c.Inner().CreateLockKeysForIDs(keys)
 }
@@ -187,4 +215,3 @@ func (c *Cache) Clear(ctx context.Context) error {
 	}
 	return in.Clear(ctx)
 }
-
